@@ -17,10 +17,10 @@ MCParams == AllModel \o <<"offset">>
 MCCallParams == {AllModel[i] : i \in ModelSel} \cup {"offset"}
 MCObsParams == {"offset"}
 MCDerived == <<"logg", "mu">>
-FullSetting == [planet_radius |-> [fit |-> TRUE,  mode |-> "linear", lo |-> -1,  hi |-> 1, raw |-> FALSE],
-                T             |-> [fit |-> FALSE, mode |-> "linear", lo |-> 2,   hi |-> 4, raw |-> FALSE],
-                H2O           |-> [fit |-> FALSE, mode |-> "log",    lo |-> -12, hi |-> -1, raw |-> FALSE],
-                offset        |-> [fit |-> FALSE, mode |-> "linear", lo |-> -3,  hi |-> 0, raw |-> FALSE]]
+FullSetting == [planet_radius |-> [fit |-> TRUE,  mode |-> "linear", lo |-> -1,  hi |-> 1,  raw |-> FALSE, slo |-> -1,  shi |-> 1],
+                T             |-> [fit |-> FALSE, mode |-> "linear", lo |-> 2,   hi |-> 4,  raw |-> FALSE, slo |-> 2,   shi |-> 4],
+                H2O           |-> [fit |-> FALSE, mode |-> "log",    lo |-> -12, hi |-> -1, raw |-> FALSE, slo |-> -12, shi |-> -1],
+                offset        |-> [fit |-> FALSE, mode |-> "linear", lo |-> -3,  hi |-> 0,  raw |-> FALSE, slo |-> -3,  shi |-> 0]]
 FullValue   == [planet_radius |-> 0, T |-> 3, H2O |-> -3, offset |-> -2]
 MCPSet == {MCParams[i] : i \in 1..Len(MCParams)}
 MCInitSetting == [p \in MCPSet |-> FullSetting[p]]
@@ -28,7 +28,9 @@ MCInitValue   == [p \in MCPSet |-> FullValue[p]]
 MCInitDerived == [logg |-> FALSE, mu |-> TRUE]
 MCUnknownFit == {"nope", "mu"}
 MCUnknownDer == {"nope", "H2O"}
-AllBounds  == <<<<-6, -2>>, <<1, -1>>, <<0, 3>>, <<-4, -3>>>>          \* second pair is reversed
+\* second pair is reversed; 5: (0, 0.1); 6: (10, -1) reversed with a negative edge; 7: (-100, 0)
+\* (pairs with a zero / negative edge are legal for a parameter fitted in linear space)
+AllBounds  == <<<<-6, -2>>, <<1, -1>>, <<0, 3>>, <<-4, -3>>, <<Zero, -1>>, <<1, Neg(0)>>, <<Neg(2), Zero>>>>
 AllFactors == <<<<-1, 1>>, <<-2, 0>>>>
 AllPriors  == <<[kind |-> "Uniform",     a |-> -2, b |-> 2],
                 [kind |-> "LogUniform",  a |-> -5, b |-> -1],
@@ -66,23 +68,46 @@ SettingLite == \E p \in CallParams :
                   \/ \E f \in Factors : SetFactorBoundary(p, f)
 \* a vector one entry shorter (if that is not empty) / one entry longer than the fitted set
 PresetWrong == \E vec \in WrongVecs : Len(vec) \in {Len(compiled) - 1, Len(compiled) + 1} /\ UpdateWrong(vec)
+\* an accepted update_model is followed by update_model with the same array object (UpdateSame)
 PresetNext == CASE Len(hist) = 0 -> PresetCall
                 [] Len(hist) = 1 -> SettingLite \/ PriorCall \/ Compile
                 [] Len(hist) = 2 -> Compile
-                [] OTHER         -> UpdateCall \/ WriteBack \/ Compile \/ PresetWrong
+                [] Len(hist) = 3 -> UpdateCall \/ WriteBack \/ Compile \/ PresetWrong
+                [] OTHER         -> hist[4].op = "update_model" /\ ~err /\ UpdateSame
 PresetSpec == Init /\ [][PresetNext]_vars
+PresetDone == Len(hist) = 5 \/ (Len(hist) = 4 /\ ~(hist[4].op = "update_model" /\ ~err))
+PresetEmit == PresetDone => PrintT(<<"BEH", ToJson([h |-> hist])>>)
+
+\* export of "order" histories (binding C): the fitted set is chosen, then two setting calls of different kinds name
+\* the same fitted parameter in either order (boundaries then mode as an input file does, mode then boundaries,
+\* factor boundaries then mode, ..), then compile: the set-up is that of the final settings, whatever the order
+SecondSetting == LET p == hist[2].p  k == hist[2].op IN
+                  \/ k # "set_mode" /\ \E mc \in ModeCalls : SetMode(p, mc[1], mc[2])
+                  \/ k # "set_boundary" /\ \E b \in BoundPairs : SetBoundary(p, b)
+                  \/ k # "set_factor_boundary" /\ \E f \in Factors : SetFactorBoundary(p, f)
+FirstSetting == \E p \in CallParams : setting[p].fit /\
+                  (\/ \E mc \in ModeCalls : SetMode(p, mc[1], mc[2])
+                   \/ \E b \in BoundPairs : SetBoundary(p, b)
+                   \/ \E f \in Factors : SetFactorBoundary(p, f))
+OrderNext == CASE Len(hist) = 0 -> PresetCall
+               [] Len(hist) = 1 -> FirstSetting
+               [] Len(hist) = 2 -> SecondSetting
+               [] OTHER         -> Compile
+OrderSpec == Init /\ [][OrderNext]_vars
 
 \* simulation: choose the class of call first so that compile / update_model are not drowned
 \* by the many argument combinations of the setters
-Classes == {"setting", "setting2", "prior", "derived", "compile", "compile2", "update", "writeback", "unknown", "preset", "wrongupdate"}
+Classes == {"setting", "setting2", "prior", "derived", "compile", "compile2", "update", "writeback", "unknown", "preset", "wrongupdate", "same"}
 \* (the history is printed when the behaviour's last state is expanded: once per behaviour)
 SimNext == /\ (Export = "sim" /\ Len(hist) = MaxLevel - 1) => PrintT(<<"BEH", ToJson([h |-> hist])>>)
            /\ \E c \in {RandomElement(Classes)} :      \* (a bound variable: drawn once per step, not once per CASE arm)
              CASE c \in {"setting", "setting2"} -> SettingCall
                [] c = "prior"     -> PriorCall
                [] c = "derived"   -> DerivedCall
-               [] c \in {"compile", "compile2"} -> Compile
+               \* (settings for which compile_params is not defined: another setting call instead)
+               [] c \in {"compile", "compile2"} -> IF CompileDefined THEN Compile ELSE SettingCall
                [] c = "update"    -> UpdateCall
+               [] c = "same"      -> IF SameDefined THEN UpdateSame ELSE UpdateCall
                [] c = "writeback" -> WriteBack
                [] c = "preset"    -> PresetCall
                [] c = "wrongupdate" -> LET n == RandomElement(WrongLens) IN \E vec \in [1..n -> K] : UpdateWrong(vec)
